@@ -1,6 +1,7 @@
 package ag
 
 import (
+	"os"
 	"fmt"
 	"math/big"
 	"math/rand"
@@ -354,6 +355,9 @@ func (w *world) deliver(in *intent) {
 		}
 	}
 	w.rec.Logf("tx %s code=%d ok=%v %s %s", in.kind, res.Code, ok, vmErr, in.desc)
+	if os.Getenv("TSIM_DEBUG") != "" && res.Code != 0 {
+		fmt.Fprintln(os.Stderr, "DEBUG", in.desc, firstLine(res.Log))
+	}
 	w.rec.Sched(fmt.Sprintf("%s:%v", in.kind, ok))
 	switch in.kind {
 	case "convcoin", "converc":
